@@ -22,7 +22,7 @@ for d in seeded/*/; do
     skipped=$((skipped+1)); rm -rf "$S"; continue
   fi
   n=$((n+1))
-  out=$(bin/goverif prop -id "$ID" -tier quick -repo "$S" -verif "$(pwd)" -evidence "$S/.evidence" 2>&1)
+  out=$(VERIF_NO_REPLAY=1 bin/goverif prop -id "$ID" -tier quick -repo "$S" -verif "$(pwd)" -evidence "$S/.evidence" 2>&1)
   if echo "$out" | grep -q '^VIOLATION'; then
     caught=$((caught+1))
     echo "SELFTEST $ID $(basename $d): noticed ($(echo "$out" | grep -c '^VIOLATION') obligation(s))"
